@@ -11,16 +11,33 @@ class BuildFailed(Exception):
         self.cause = type(cause).__name__
 
 
-def _element(el):
+def _np(v):
+    if isinstance(v, bool):
+        return v
+    if isinstance(v, (int, float)):
+        return np.float64(v)
+    if isinstance(v, complex):
+        return np.complex128(v)
+    return v
+
+
+def _element(el, as_numpy=False):
     from CircuitCalculator.Network import elements as elm
     k = el["k"]
     args = dec(el.get("args", {}))
+    if as_numpy:
+        # values taken from numpy arrays are numpy scalars: 1/np.float64(0) follows numpy's error state, not Python's
+        args = {k2: _np(v) for k2, v in args.items()}
+        if k == "voltage_source" and "Z" not in args:
+            args["Z"] = np.float64(0)
+        if k == "current_source" and "Y" not in args:
+            args["Y"] = np.float64(0)
     return getattr(elm, k)(el["name"], **args)
 
 
 def build_network(r):
     from CircuitCalculator.Network.network import Network, Branch
-    branches = [Branch(b["n1"], b["n2"], _element(b["el"])) for b in r["branches"]]
+    branches = [Branch(b["n1"], b["n2"], _element(b["el"], r.get("np", False))) for b in r["branches"]]
     if "zero" in r:
         return Network(branches, r["zero"])
     return Network(branches)
